@@ -605,4 +605,16 @@ theorem function_scoped_not_read_at_library_level :
     (∃ r ∈ optionReads, r.2.1 = Owner.node ∧ functionScopedOptions.contains r.1 = true) := by
   decide +kernel
 
+open Shroud.Gen.OptReads in
+/-- **no function-scoped setting is cached across declarations** (static
+    part).  Whenever a value read from an option / format scope is stored in
+    an attribute of a pass or wrapper object (`self.x = ... options.K ...`,
+    regenerated list `cachedReads`; today the line lengths and two file-level
+    names), `K` is not in the function-scoped set: such a value would be
+    computed for one declaration and reused for the next. -/
+theorem function_scoped_not_cached_across_declarations :
+    ∀ r ∈ cachedReads,
+      (if r.1 then functionScopedOptions else functionScopedFormats).contains r.2.1 = false := by
+  decide +kernel
+
 end Shroud.Scope
